@@ -19,3 +19,17 @@ Definition sp_parts (divs : list Z) (rows : list Z) : list (list Z) :=
    as the end points; an assumption when the user passes divisions=) *)
 Definition keys_within (divs : list Z) (rows : list Z) : Prop :=
   forall v, In v rows -> (nth 0 divs 0 <= v <= nth (length divs - 1) divs 0)%Z.
+
+(* descending sorts (sort_values(ascending=False)): the divisions stay ascending, the partition numbers are mirrored
+       partitions = len(divisions) - divisions.searchsorted(s, side="right") - 1
+       partitions[(partitions < 0) | (partitions >= len(divisions) - 1)] = 0 *)
+Definition sp_part_desc (divs : list Z) (v : Z) : nat :=
+  let b := bisect_right divs v in
+  if (b =? 0) || (length divs <=? b) then 0 else length divs - b - 1.
+
+Definition sp_parts_desc (divs : list Z) (rows : list Z) : list (list Z) :=
+  map (fun i => filter (fun v => sp_part_desc divs v =? i) rows) (seq 0 (length divs - 1)).
+
+(* no key below the first division *)
+Definition keys_above (divs : list Z) (rows : list Z) : Prop :=
+  forall v, In v rows -> (nth 0 divs 0 <= v)%Z.
